@@ -25,6 +25,7 @@ import (
 	"verif/harness/suites/rle"
 	t1s "verif/harness/suites/t1"
 	"verif/harness/suites/t1safe"
+	"verif/harness/suites/t2ht"
 	"verif/harness/vhlib"
 )
 
@@ -50,6 +51,8 @@ func main() {
 	pipeht.Register(s)     // C06 (HT block coder composed into the pipeline)
 	jpegent.Register(s)    // C11 C08 C09 C15 (baseline / extended entropy layer)
 	t1safe.Register(s)     // C08 C09 (T1 block decoder on arbitrary input)
+	jpegll.RegisterDest(s) // C13 (every T.81 stream layout: table destinations, DHT/APPn/COM placement)
+	t2ht.Register(s)       // C06 (HTJ2K packet-header coder; exported-API part, hook part in cmd/vhk)
 	htsafe.Register(s)     // C08 C09 (HT cleanup block decoder on arbitrary input)
 	vhlib.Main(s)
 }
